@@ -142,11 +142,14 @@ theorem C18_copy_refines_partial (H : Hashes) (dl : Nat) {s : State} (hi : Inv s
 
 /-! ## listings -/
 
-/-- list_objects_v2. Partial — excluded: any delimiter (fs:list-delimiter-not-rolled-up, fs:list-delimiter-rewrites-keys), a
-    prefix that reads differently as a path (fs:list-prefix-as-path), `max-keys` below the number of keys
-    (fs:list-ignores-max-keys) -/
+/-- list_objects_v2: the keys under the prefix (a plain string prefix) after `start-after`, in byte order, rolled up into
+    CommonPrefixes by any delimiter (the empty one rolls up nothing), cut at `max-keys` (default 1000; none for 0 or less)
+    with `IsTruncated`, `KeyCount` = keys + common prefixes — every member equal to the store's (fe72881; before:
+    fs:list-delimiter-not-rolled-up, fs:list-delimiter-rewrites-keys, fs:list-ignores-max-keys, and prefixes such as `d//e`
+    read as paths). Partial — excluded: a prefix that starts with `/` (fs:list-prefix-as-path: its leading slashes are
+    dropped, as the integration test `test_list_objects_v2` of s3s-fs demands) -/
 theorem C18_list_v2_refines_partial (H : Hashes) (dl : Nat) {s : State} (hi : Inv s) {b : Bytes}
-    {pfx delim after : Option Bytes} {maxKeys : Option Int} (hg : ListOk s b pfx delim maxKeys) :
+    {pfx delim after : Option Bytes} {maxKeys : Option Int} (hg : ListOk b pfx) :
     (step H dl s (.listObjectsV2 b pfx delim after maxKeys)).2 =
       (StoreSpec.step H (abs s) (.listObjectsV2 b pfx delim after maxKeys)).2 ∧
     abs (step H dl s (.listObjectsV2 b pfx delim after maxKeys)).1 =
@@ -155,7 +158,7 @@ theorem C18_list_v2_refines_partial (H : Hashes) (dl : Nat) {s : State} (hi : In
 
 /-- list_objects (v1, `marker`): as v2 -/
 theorem C18_list_v1_refines_partial (H : Hashes) (dl : Nat) {s : State} (hi : Inv s) {b : Bytes}
-    {pfx delim marker : Option Bytes} {maxKeys : Option Int} (hg : ListOk s b pfx delim maxKeys) :
+    {pfx delim marker : Option Bytes} {maxKeys : Option Int} (hg : ListOk b pfx) :
     (step H dl s (.listObjects b pfx delim marker maxKeys)).2 =
       (StoreSpec.step H (abs s) (.listObjects b pfx delim marker maxKeys)).2 ∧
     abs (step H dl s (.listObjects b pfx delim marker maxKeys)).1 =
@@ -372,6 +375,21 @@ example : GoodRun H0 4096 {} demo := by decide
 /-- … so the theorem applies to it -/
 example : (run H0 4096 {} demo).2 = (StoreSpec.run H0 {} demo).2 :=
   (C18_history_from_empty_partial H0 4096 demo (by decide)).1
+
+/-- listings with a delimiter (also one other than `/`, also the empty one), a prefix that is no path (`d//`, `d/./`), a
+    marker and `max-keys` (also 0 and negative) are inside `Good`: on the state after `d/e`, `a`, `d/f` were written the
+    backend rolls `d/e`, `d/f` up into the common prefix `d/`, cuts after one entry and says so; only a prefix that starts
+    with `/` is outside -/
+example :
+    let s := (run H0 4096 {} (demo.take 17)).1
+    Good s (.listObjectsV2 bka none (some [47]) none (some 1)) ∧
+    (step H0 4096 s (.listObjectsV2 bka none (some [47]) none (some 1))).2 = .listed [(kA, 0)] 1 true [] ∧
+    (step H0 4096 s (.listObjectsV2 bka none (some [47]) (some kA) (some 1))).2 = .listed [] 1 false [[100, 47]] ∧
+    (step H0 4096 s (.listObjects bka (some [100]) (some [47]) none none)).2 = .listed [] 1 false [[100, 47]] ∧
+    (step H0 4096 s (.listObjects bka none (some [101]) none none)).2 = .listed [(kA, 0), (kDF, 5)] 3 false [kDE] ∧
+    Good s (.listObjects bka (some [100, 47, 47]) (some []) none (some 0)) ∧
+    Good s (.listObjectsV2 bka (some [100, 47, 46, 47]) (some [45]) (some kDE) (some (-1))) ∧
+    ¬ Good s (.listObjectsV2 bka (some [47, 100]) none none none) := by decide
 
 /-- the per-operation predicates are inhabited on a state with objects: an overwrite carrying metadata, a ranged read,
     a copy between objects that both have metadata files -/
